@@ -122,6 +122,10 @@ def normalize(
     Returns:
         torch.Tensor: normalized tensor.
     """
+    # an epsilon below the smallest normal value of the data type underflows to zero there
+    # (1e-12 in float16), and a zero-valued norm would then divide zero by zero
+    if data.is_floating_point() or data.is_complex():
+        epsilon = max(epsilon, torch.finfo(data.dtype).tiny)
     return scale * F.normalize(data, p=order, dim=dim, eps=epsilon)  # type: ignore
 
 
